@@ -711,7 +711,8 @@ func init() {
 			"thorough (3,3) (4,3) (5,2) full product, (6,2) without the reversed list, (7,1) index {never, ReinitIndexes} without the reversed list; " +
 			"trees parsed from Newick (and built through the public constructors for the undeviated ones); oracle on the API walk and on the Newick text: tip set, " +
 			"split set = non-trivial restrictions, all pairwise path sums (exact, dyadic), no single-child node, support of unmerged branches, look-ups ExistsTip/TipNode/TipIndex/NbTips, ReinitIndexes afterwards; " +
-			"non-trivial = at least one tip removed (distinct tree x kept set x operation); plus 64-tip caterpillar/balanced/star instances (not exhaustive)",
+			"non-trivial = at least one tip removed (distinct tree x kept set x operation); plus 64-tip caterpillar/balanced/star instances (not exhaustive); " +
+			"plus the command `gotree prune` in-process on two-tree files for every shape with 4-5 (thorough 6) tips x every kept set x {tips on the command line, -r, tip file, comma-separated tip file -r, compared tree, compared tree -r}, each output line judged by the same oracle",
 		Assumptions: []string{
 			"reference Newick reader (refmodel) implements the writer's grammar (C01)",
 			"lengths are dyadic (k/8, <= 2^11/8) so that every path sum is exact in float64; an absent length counts as 0 in path sums",
@@ -720,7 +721,7 @@ func init() {
 		Require: []string{"remove_executions", "keep_executions", "tipset_checked", "dist_pairs_checked", "restricted_splits_checked", "unmerged_supports_checked",
 			"absent_name_in_list", "lookups_after_indexed_prune", "lookups_of_removed_tips", "never_indexed_prune",
 			"tip_attached_to_root_removed", "whole_clade_removed", "both_children_of_cherry_removed", "rooted_root_loses_child", "unrooted_root_left_with_two_children",
-			"single_child_node_to_suppress", "merge_absent_with_present_length", "multifurcating_tree", "polytomy_shrinks", "inner_split_becomes_trivial", "large_instances"},
+			"single_child_node_to_suppress", "merge_absent_with_present_length", "multifurcating_tree", "polytomy_shrinks", "inner_split_becomes_trivial", "large_instances", "cli_prune_args", "cli_prune_args-revert", "cli_prune_tipfile", "cli_prune_tipfile-commas-revert", "cli_prune_comp", "cli_prune_comp-revert"},
 		Run: func(c *Ctx) {
 			// gotree's Tips()/Edges()/Nodes() allocate 16 kB per call: collect less often (garbage is short-lived)
 			defer debug.SetGCPercent(debug.SetGCPercent(1000))
@@ -760,6 +761,8 @@ func init() {
 			if c.Shard == 0 {
 				c06large(c)
 			}
+			// the command: `gotree prune` with tips on the command line, a tip file, a compared tree, --revert
+			c06cli(c)
 		},
 		Replay: func(c *Ctx, raw json.RawMessage) {
 			var cs c06case
